@@ -95,6 +95,9 @@ type genReq struct {
 	Chunks  []int
 	Class   string
 	body    []byte
+	// HopNamesStrict: the backend must not receive ANY field under a hop-by-hop name the client used
+	// (HTTP/1.1 path only: an HTTP/2 transport adds its own "te: trailers").
+	HopNamesStrict bool
 }
 
 const pathChars = "abcXYZ019-._~!$&'()*+,;=:@"
@@ -250,6 +253,9 @@ func genRequest(rng *rand.Rand, tok string, big bool) *genReq {
 			if strings.EqualFold(name, "Range") {
 				v = "bytes=0-" + strconv.Itoa(rng.Intn(100))
 			}
+			if strings.EqualFold(name, "Accept") && rng.Intn(2) == 0 {
+				v = []string{"text/html", "text/html,application/xhtml+xml,application/xml;q=0.9,*/*;q=0.8", "application/json, text/html;q=0.1"}[rng.Intn(3)]
+			}
 			g.Fields = append(g.Fields, rawhttp.Field{Name: wire, Value: v})
 		}
 	}
@@ -311,6 +317,9 @@ func genRequest(rng *rand.Rand, tok string, big bool) *genReq {
 		}
 		hopShape |= 1 << i
 		val := "hop" + strconv.Itoa(i) + "-" + tok
+		if h == "TE" {
+			val = []string{"trailers", "trailers, hop4-" + tok, "gzip;q=0.5, trailers, hop4-" + tok, "hop4-" + tok}[rng.Intn(4)]
+		}
 		if h == "Trailer" {
 			val = "X-Hop" + strconv.Itoa(i) + "-" + tok
 		}
@@ -415,10 +424,27 @@ func compareRequest(g *genReq, got *rawhttp.Message) []string {
 			bad = append(bad, fmt.Sprintf("field %q: got %q want %q", n, trunc(gotv), trunc(want)))
 		}
 	}
+	if g.HopNamesStrict {
+		for _, h := range g.Hop {
+			if strings.EqualFold(h.Name, "Trailer") || strings.EqualFold(h.Name, "Connection") {
+				continue // re-framing may announce its own; judged by token below
+			}
+			if v := got.Get(h.Name); len(v) > 0 {
+				bad = append(bad, fmt.Sprintf("hop-by-hop field %s (client sent %q) reached the backend as %q", h.Name, h.Value, v))
+			}
+		}
+	}
 	// planted hop-by-hop tokens must be absent everywhere
 	for _, h := range g.Hop {
 		for _, f := range got.Fields {
-			if strings.Contains(f.Value, h.Value) || strings.EqualFold(f.Name, h.Value) {
+			if h.Value == "trailers" {
+				continue // not a unique token; covered by the name rule
+			}
+			tokv := h.Value
+			if i := strings.LastIndex(tokv, "hop4-"); i >= 0 {
+				tokv = tokv[i:]
+			}
+			if strings.Contains(f.Value, tokv) || strings.EqualFold(f.Name, tokv) {
 				bad = append(bad, fmt.Sprintf("hop-by-hop field %s: %s reached the backend as %s: %s", h.Name, h.Value, f.Name, f.Value))
 			}
 		}
@@ -482,7 +508,9 @@ func C02(r *core.Run) {
 	rng := r.Rand("c02")
 	gens := make([]*genReq, 0, total+nbig)
 	for i := 0; i < total+nbig; i++ {
-		gens = append(gens, genRequest(rng, fmt.Sprintf("s%dn%d", r.Seed, i), i >= total))
+		g := genRequest(rng, fmt.Sprintf("s%dn%d", r.Seed, i), i >= total)
+		g.HopNamesStrict = true
+		gens = append(gens, g)
 	}
 	var wg sync.WaitGroup
 	ch := make(chan *genReq)
@@ -554,6 +582,7 @@ func C02(r *core.Run) {
 		r.Sample(map[string]interface{}{"sent": g, "received_start_line": got[0].StartLine, "received_fields": len(got[0].Fields)})
 	}
 	c02H2(r, md, serverBin, agentBin)
+	c02Full(r, md, serverBin, agentBin)
 	judgeProcs(r, true, server, agent)
 	killAll(agent, server)
 	// Races are listed but only attributed ones decide (anchors: server.go, utils.go, agent.go)
@@ -700,4 +729,127 @@ func c02H2(r *core.Run, md *fakes.Metadata, serverBin, agentBin string) {
 	}
 	r.Add("h2_backend_requests", len(gens))
 	judgeProcs(r, true, server, agent)
+}
+
+// c02Full is the "all request-side features on" flavour: the agent runs with
+// the banner, the websocket shim and session tracking enabled; the same
+// generator and oracle apply (Cookie excluded: session tracking rewrites it
+// by design).
+func c02Full(r *core.Run, md *fakes.Metadata, serverBin, agentBin string) {
+	rec, err := newRecorder()
+	if err != nil {
+		r.Broken(err.Error())
+		return
+	}
+	defer rec.Srv.Close()
+	server, addr, err := startServer(r, serverBin, "server-full")
+	if err != nil {
+		r.Broken(err.Error())
+		return
+	}
+	defer server.Kill()
+	agent, err := startAgent(r, agentBin, "agent-full", md, "http://"+addr+"/", rec.Srv.Addr(), "b2full",
+		"--inject-banner=<b>banner</b>", "--shim-path=shim", "--shim-websockets=true", "--session-cookie-name=SIDC02", "--disable-ssl-for-test=true", "--debug=true")
+	if err != nil {
+		r.Broken(err.Error())
+		return
+	}
+	defer agent.Kill()
+	if err := waitReady(addr, agent, server); err != nil {
+		r.Broken("full flavour: " + err.Error())
+		return
+	}
+	rng := r.Rand("c02full")
+	n := r.Pick(150, 3000)
+	var gens []*genReq
+	for i := 0; i < n; i++ {
+		g := genRequest(rng, fmt.Sprintf("s%dfulln%d", r.Seed, i), false)
+		var keep []rawhttp.Field
+		for _, f := range g.Fields {
+			if !strings.EqualFold(f.Name, "Cookie") {
+				keep = append(keep, f)
+			}
+		}
+		g.Fields = keep
+		if i%3 == 0 && g.Method == "GET" {
+			// a page navigation: GET with an Accept that includes text/html
+			g.Fields = append([]rawhttp.Field{{Name: "Accept", Value: "text/html,application/xhtml+xml;q=0.9,*/*;q=0.8"}}, dropField(g.Fields, "Accept")...)
+		}
+		g.HopNamesStrict = true
+		g.Class = "full|" + g.Class
+		gens = append(gens, g)
+	}
+	ch := make(chan *genReq)
+	var wg sync.WaitGroup
+	var failures int64
+	var stmu sync.Mutex
+	status := map[string]int{}
+	location := map[string]string{}
+	for wkr := 0; wkr < 6; wkr++ {
+		wg.Add(1)
+		go func() {
+			defer wg.Done()
+			cl := rawhttp.NewClient(addr, 30*time.Second)
+			defer cl.Close()
+			for g := range ch {
+				if atomic.LoadInt64(&failures) >= 24 {
+					continue
+				}
+				m, err := cl.Do(g.wire(), g.Method)
+				if err != nil {
+					atomic.AddInt64(&failures, 1)
+				} else {
+					stmu.Lock()
+					status[g.Tok] = m.Status
+					if v := m.Get("Location"); len(v) > 0 {
+						location[g.Tok] = v[0]
+					}
+					stmu.Unlock()
+				}
+			}
+		}()
+	}
+	for _, g := range gens {
+		ch <- g
+	}
+	close(ch)
+	wg.Wait()
+	for _, g := range gens {
+		if atomic.LoadInt64(&failures) >= 24 {
+			r.Violate("C02:full:request-not-delivered", "well-formed requests repeatedly got no response through the agent with banner, shim and sessions enabled", g, nil)
+			break
+		}
+		r.Case(g.Class)
+		got, perr := rec.get(g.Tok)
+		if len(got) == 0 && (status[g.Tok] == 301 || status[g.Tok] == 308) {
+			// answered by the agent itself with a redirect to the "cleaned" path: the handler chain of this
+			// configuration is mounted on http.ServeMux, which does that for paths containing //, /./ or /../
+			pth := g.Target
+			if i := strings.IndexByte(pth, '?'); i >= 0 {
+				pth = pth[:i]
+			}
+			r.Add("full_config_requests_redirected_by_servemux", 1)
+			r.Violate("C02:full:non-clean-path-redirected", fmt.Sprintf("agent with banner/shim enabled: %s %s was not delivered to the backend; the agent answered %d Location: %s", g.Method, g.Target, status[g.Tok], location[g.Tok]), g, nil)
+			continue
+		}
+		if len(got) != 1 || perr != "" {
+			r.Violate("C02:full:delivery-count", fmt.Sprintf("backend saw request %s %d times (%s %s) %s", g.Tok, len(got), g.Method, g.Target, perr), g, nil)
+			continue
+		}
+		if bad := compareRequest(g, got[0]); len(bad) > 0 {
+			r.Violate("C02:full:"+diffKind(bad[0]), fmt.Sprintf("agent with banner+shim+sessions: %s %s: %s", g.Method, g.Target, strings.Join(bad, "; ")), g, map[string]interface{}{"received_start": got[0].StartLine, "received_fields": got[0].Fields})
+		}
+	}
+	r.Add("full_config_requests", len(gens))
+	judgeProcs(r, true, server, agent)
+}
+
+func dropField(fs []rawhttp.Field, name string) []rawhttp.Field {
+	var out []rawhttp.Field
+	for _, f := range fs {
+		if !strings.EqualFold(f.Name, name) {
+			out = append(out, f)
+		}
+	}
+	return out
 }
